@@ -74,6 +74,10 @@ FAMILIES = {
     "p_xsum": fam(K=3, Prog="ProgXSum", Ops=["set"], MaxVars=2, MaxNodes=4, MaxObs=2, MaxActs=11, MaxRounds=4, MaxH=16),
     "p_xcell": fam(Prog="ProgXCell", Ops=["set"], MaxVars=2, MaxNodes=6, MaxObs=2, MaxActs=12, MaxRounds=4, MaxH=16),
     "p_memo": fam(Prog="ProgMemo", Ops=["set"], MaxVars=2, MaxNodes=6, MaxObs=2, MaxActs=13, MaxRounds=3, MaxH=16),
+    "p_heightbind": fam(Prog="ProgHeightBind", Ctors=["limits"], Ops=["set"], MaxVars=2, MaxNodes=8, MaxObs=2, MaxActs=12,
+                        MaxRounds=3, MaxH=5),
+    "p_scopecycle": fam(Prog="ProgScopeCycle", Ctors=["cyclic", "limits"], Ops=["set"], MaxVars=2, MaxNodes=8, MaxObs=2, MaxActs=10,
+                        MaxRounds=3, MaxH=16),
     "p_xjoin": fam(Prog="ProgXJoin", Ops=["set"], MaxVars=2, MaxNodes=5, MaxObs=2, MaxActs=11, MaxRounds=4, MaxH=16),
     # expert constructions
     "xjoin_s": fam(Ctors=["var", "nvar", "xjoin"], MaxVars=3, MaxNodes=5, MaxObs=1, MaxActs=9, MaxRounds=3, MaxH=16),
@@ -91,11 +95,17 @@ for _n in [n for n in list(FAMILIES) if n.startswith("p_")]:
     _d = dict(FAMILIES[_n]); _d["MaxActs"] += 2; _d["MaxRounds"] += 1; _d["timeout"] = 3000
     FAMILIES[_n + "_m"] = _d
 # keep the exported sample of behaviours around 50-80k per family (TLC still visits every state)
-for _n, _mod in dict(bind_s=2, leak_s=2, nest_s=3, ref_s=4, mwo_s=6, cut_s=5, pick_s=6, pick_q=3, xjoin_s=3, xsum_s=2,
-                     bind_m=40, leak_m=12, nest_m=15, ref_m=20, mwo_m=30, cut_m=25, pick_m=30, xjoin_m=15, xsum_m=10,
-                     core_m=10, obs_m=6, var_m=2, mwo4_s=4, mwo4_m=20, p_cutreobs=8, p_bindtall=2, obsfx_s=4, eff_s=2, own_s=2, ownbind_s=3, panic_s=2, cycle_s=3,
-                     obsfx_m=20, eff_m=10, own_m=10, ownbind_m=15, panic_m=10, cycle_m=15, memo_m=5, height_m=4, bindalt_m=3).items():
+for _n, _mod in dict(core_s=4, bind_s=6, obs_s=5, p_xsum=5, panic_s=8, cycle_s=4, p_bindtall=3, ownbind_s=10, memo_s=3,
+                     pick_q=8, pick_s=12, own_s=5, ref_s=7, leak_s=4, nest_s=5, height_s=2, xjoin_s=5, mwo_s=11, mwo4_s=6,
+                     obsfx_s=5, xsum_s=2, eff_s=2, p_cutreobs=9, cut_s=5, p_xcell=4, p_memo=2, misuse_s=1, bindalt_s=1,
+                     p_xjoin=2).items():
     FAMILIES[_n]["ExportMod"] = _mod
+# thorough variants explore ~5-10x more states: sample accordingly
+for _n in list(FAMILIES):
+    if _n.endswith("_m") and "ExportMod" not in FAMILIES[_n]:
+        _base = _n[:-2] + "_s" if _n[:-2] + "_s" in FAMILIES else _n[:-2]
+        FAMILIES[_n]["ExportMod"] = 8 * FAMILIES.get(_base, {}).get("ExportMod", 1)
+FAMILIES["pick_m"]["ExportMod"] = 60
 
 
 # thorough only: TLC simulation (random walks, every invariant evaluated in every visited state) over the union of
@@ -112,34 +122,47 @@ FAMILIES["sim_expert"] = fam(K=3, Ctors=["var", "nvar", "map", "xjoin", "xsum", 
                              simulate=3000, depth=400, timeout=1500)
 
 
-def plan(*names):
-    return dict(quick=list(names),
-                thorough=[n[:-2] + "_m" if n.endswith(("_s", "_q")) else (n + "_m" if n.startswith("p_") else n) for n in names])
+def plan(*names, sim=None):
+    """quick = the named families; thorough = their larger variants (+ a TLC simulation family)"""
+    d = _plan(*names)
+    if sim:
+        d["thorough"].append(sim)
+    return d
+
+
+def _big(n):
+    base, at, prof = n.partition("@")
+    big = base[:-2] + "_m" if base.endswith(("_s", "_q")) else (base + "_m" if base.startswith("p_") else base)
+    return big + at + prof
+
+
+def _plan(*names):
+    return dict(quick=list(names), thorough=[_big(n) for n in names])
 
 
 RND = dict(quick=48, thorough=600, len=40)
 
 PROPS = {
-    "C01": dict(families=plan("core_s", "ref_s", "pick_q", "mwo4_s"), random=RND),
-    "C02": dict(random=RND, families=plan("bind_s", "nest_s", "p_bindtall", "p_grow")),
-    "C03": dict(random=RND, families=plan("leak_s", "bind_s")),
-    "C04": dict(families=plan("leak_s", "xjoin_s", "obsfx_s"), profiles=["debug", "release"], random=dict(quick=24, thorough=300, len=40)),
-    "C05": dict(random=RND, families=plan("obs_s", "obsfx_s", "pick_q")),
-    "C06": dict(random=RND, families=plan("cut_s", "mwo4_s", "p_cutreobs", "p_refcut")),
-    "C07": dict(random=RND, families=plan("obs_s", "eff_s", "p_update")),
-    "C08": dict(random=RND, families=plan("var_s", "eff_s", "obsfx_s", "p_update")),
-    "C09": dict(random=RND, families=plan("obs_s", "obsfx_s")),
-    "C10": dict(random=RND, families=plan("obs_s", "obsfx_s")),
+    "C01": dict(families=plan("core_s", "ref_s", "pick_q", "mwo4_s", sim="sim_engine"), random=RND),
+    "C02": dict(random=RND, families=plan("bind_s", "nest_s", "p_bindtall", "p_grow", sim="sim_engine")),
+    "C03": dict(random=RND, families=plan("leak_s", "bind_s", sim="sim_engine")),
+    "C04": dict(families=plan("leak_s", "xjoin_s", "obsfx_s", sim="sim_engine"), profiles=["debug", "release"], random=dict(quick=24, thorough=300, len=40)),
+    "C05": dict(random=RND, families=plan("obs_s", "obsfx_s", "pick_q", sim="sim_engine")),
+    "C06": dict(random=RND, families=plan("cut_s", "mwo4_s", "p_cutreobs", "p_refcut", sim="sim_engine")),
+    "C07": dict(random=RND, families=plan("obs_s", "eff_s", "p_update", sim="sim_engine")),
+    "C08": dict(random=RND, families=plan("var_s", "eff_s", "obsfx_s", "p_update", sim="sim_engine")),
+    "C09": dict(random=RND, families=plan("obs_s", "obsfx_s", sim="sim_engine")),
+    "C10": dict(random=RND, families=plan("obs_s", "obsfx_s", sim="sim_engine")),
     # thorough additionally audits the snapshots of the repository's own 74 tests (stage_owntests)
-    "C11": dict(random=RND, families=plan("obs_s", "bind_s", "bindalt_s"), stage_modules_thorough=["stage_owntests"]),
-    "C12": dict(random=RND, families=plan("own_s", "ownbind_s", "obsfx_s", "eff_s")),
+    "C11": dict(random=RND, families=plan("obs_s", "bind_s", "bindalt_s", "bindalt_s@release", sim="sim_engine"), stage_modules_thorough=["stage_owntests"]),
+    "C12": dict(random=RND, families=plan("own_s", "ownbind_s", "obsfx_s", "eff_s", sim="sim_engine")),
     "C13": dict(families=plan("panic_s"), profiles=["debug", "release"]),
-    "C14": dict(families=plan("xjoin_s", "xsum_s", "p_xsum", "p_xjoin", "p_xcell")),
+    "C14": dict(families=plan("xjoin_s", "xsum_s", "p_xsum", "p_xjoin", "p_xcell", sim="sim_expert")),
     "C15": dict(stage_modules=["stage_mapops"]),
     # the per-key node mechanism (cell + make_stale under connect/disconnect) is also explored at engine level
     "C16": dict(stage_modules=["stage_mapi"], families=plan("p_xcell"), retag={"C14": "C16"}),
     "C17": dict(stage_modules=["stage_mapops", "stage_mapi"]),
     "C18": dict(stage_modules=["stage_symdiff"], stage_prop="C18"),
-    "C19": dict(families=plan("height_s", "misuse_s", "cycle_s"), profiles=["debug", "release"]),
+    "C19": dict(families=plan("height_s", "misuse_s", "cycle_s", "p_heightbind", "p_scopecycle"), profiles=["debug", "release"]),
     "C20": dict(families=plan("memo_s", "p_memo")),
 }
